@@ -161,6 +161,9 @@ func RunShard(ch *Check, tier string, seed int64, i, n int, only string, unitFil
 		if unitFilter != "" && u.Key != unitFilter {
 			continue
 		}
+		if pre := os.Getenv("VERIF_ONLY"); pre != "" && !matchAny(u.Key, pre) {
+			continue
+		}
 		ctx.Unit = u.Key
 		func() {
 			defer func() {
@@ -250,6 +253,16 @@ func Drive(ch *Check, tier string, seed int64, root string, workers int, self st
 		total.merge(c)
 	}
 	return Finish(ch, total, root, time.Since(t0))
+}
+
+// matchAny reports whether key starts with one of the comma-separated prefixes.
+func matchAny(key, prefixes string) bool {
+	for _, p := range strings.Split(prefixes, ",") {
+		if p != "" && strings.HasPrefix(key, p) {
+			return true
+		}
+	}
+	return false
 }
 
 func tail(s string, n int) string {
